@@ -518,6 +518,39 @@ plumbing:
 			}
 		}
 	}
+	// histories of runs through the activeauth API
+	sec5 := "histories of runs (activeauth API)"
+	{
+		depth := 3
+		if c.Thorough() {
+			depth = 4
+		}
+		seqs := aaHistSeqs(depth)
+		specs := []perso.AASpec{{RSABits: 2048, Trailer: "34CC"}, {RSABits: 1024, Trailer: "BC"}, {Curve: "brainpoolP256r1"}, {Curve: "P-521", DER: true}}
+		c.SecBound(sec5, fmt.Sprintf("%d key types x all %d histories of up to %d DoActiveAuth runs over {genuine chip, device returning the recorded signature of the last genuine run, device signing with another key} x {one ActiveAuth object for all runs, a new one per run}; library-drawn challenges from a never-repeating source", len(specs), len(seqs), depth))
+		for _, sp := range specs {
+			for _, sq := range seqs {
+				for _, same := range []bool{true, false} {
+					if !c.Mine() {
+						continue
+					}
+					h := aaHist{AA: sp, Seq: sq, SameObject: same}
+					k, w, out, ex := runAAHist(h)
+					c.Eval(int64(len(sq)))
+					c.Outcome(sec5, out)
+					c.Distinct(fmt.Sprintf("aahist/%v/%s/%v/%s", sp, sq, same, out))
+					_ = ex
+					if k == "harness" {
+						c.HarnessError("AA history %+v: %s", h, w)
+						continue
+					}
+					if k != "" {
+						c.Violation(sec5, k, w, h, func() bool { kk, _, _, _ := runAAHist(h); return kk != "" })
+					}
+				}
+			}
+		}
+	}
 	if c.Shard == 0 {
 		c.Sample(aaCase{RSABits: 1023, Trailer: "35CC", M1: "endCC", Chal: "FF"})
 		c.Sample(aaCase{Curve: "brainpoolP320r1", DER: true, Chal: "pt", Mut: "sigbit", Bit: 77})
@@ -525,6 +558,17 @@ plumbing:
 }
 
 func replay(c *vc.Ctx, raw json.RawMessage) string {
+	var hd struct {
+		Section string `json:"section"`
+		Case    aaHist `json:"case"`
+	}
+	if json.Unmarshal(raw, &hd) == nil && hd.Case.Seq != "" {
+		k, w, out, _ := runAAHist(hd.Case)
+		if k != "" {
+			c.Violation(hd.Section, k, w, hd.Case, nil)
+		}
+		return fmt.Sprintf("AA history %+v -> %s; verdict: %s %s", hd.Case, out, k, w)
+	}
 	var doc struct {
 		Section string          `json:"section"`
 		Case    json.RawMessage `json:"case"`
